@@ -64,7 +64,7 @@ CHECKS = {
             "Pure at the function level; decided as traffic (DESIGN.md §0). 1 MiB payloads only in the thorough tier.",
             "DESIGN.md §5 C14"),
     "C15": ("fault_enumeration", "N", "deterministic simulation: the full client x server identity matrix over real rustls under seeded handshake-time network faults",
-            "All 8 pairings of client identity {CA-issued, issued by another CA, self-signed, none} and server identity {CA-issued, issued by another CA}, keys freshly generated per run by the bundled generator from the run's entropy stream, handshakes under seeded loss/duplication/reordering; the refused peer is played by the library client and by a raw quinn client. connect + first registration + one delivered message must succeed iff both sides chain to the configured CA; otherwise the error must appear no later than the first registration and a trusted subscriber must receive nothing from the refused peer.",
+            "All pairings of client identity {CA-issued, issued by another CA, self-signed, none} and server identity {CA-issued, issued by another CA}, keys freshly generated per run by the bundled generator from the run's entropy stream, handshakes under seeded loss/duplication/reordering; the refused peer is played by the library client and by a raw quinn client. connect + first registration + one delivered message must succeed iff both sides chain to the configured CA; otherwise the error must appear no later than the first registration and a trusted subscriber must receive nothing from the refused peer.",
             "Certificate expiry is not exercised (fixed validity so no wall clock enters); real rustls verifiers, quic::server_config and configure_client run unmodified.",
             "DESIGN.md §5 C15"),
     "C16": ("exploration", "R", "deterministic simulation: registration channel closed at a seeded step of pub/sub and request/reply router schedules",
@@ -77,6 +77,22 @@ CHECKS = {
             "DESIGN.md §5 C17"),
 }
 
+# later additions to a check, appended to its level text (see DESIGN.md §5 for each)
+ADDENDA = {
+    "C02": " N part (slow-requestors): raw requestors behind 1 kB-1 MB stream windows burst requests at a library replier, stall, then read; each must receive exactly its own replies, once, intact, cid stripped.",
+    "C03": " Also: truly empty items; 1-2 MB made of thousands of small messages under batch sizes up to 20000 (batches cut by encoded size); subscribers read during or only after publishing.",
+    "C05": " Refused (oversize) frames go through the same FramedWrite as the others, which stays in use: a refusal must leave no byte on the wire.",
+    "C06": " Mutations include crafted format heads (brotli/zstd/lz4/gzip/zlib window and content-size fields); each stage of the subscriber chain is guarded separately; the N part runs under a whole-world allocation guard.",
+    "C08": " N part (peer-loss): raw peers of every role fail through the real stack (CONNECTION_CLOSE, silent death found by the idle timeout, STOP_SENDING/RESET_STREAM, finish-and-drop, stalled then dead) while surviving subscribers/requestors are judged exactly; a failed replier must be replaceable by a retrying library replier.",
+    "C11": " A replier that sent an odd frame and is kept bound must keep being read (frames left in a bound replier's stream at quiescence are a lost wake-up).",
+    "C12": " Seventh fault class: a second close landing between the re-registration and its answer (a connection error, hence recoverable).",
+    "C13": " Clock-free part, stated as such: the items of the configured schedule are also compared one by one with the law in u128 nanoseconds (count, numbering, exact value, saturation, cap), because a virtual clock cannot tell 600 years from 10^20 years.",
+    "C15": " Third server identity: the trusted certificate presented as a PEM full-chain file that also carries the other CA (12 pairings); in a third of the runs the generated set was renewed in place over longer files.",
+    "C16": " The close goes through the server's topic::Sender wrapper while another copy of the sender is alive; the N smoke also runs with a registration genuinely in flight (zero-window peer).",
+    "C17": " In a third of the scripts topic A also has a zero-window peer to which even the registration answer cannot be delivered.",
+}
+ENGINE_OVERRIDE = {"C02": "R+N", "C08": "R+N", "C16": "R+N", "C10": "R+N"}
+
 PENDING_REASON = "no check built yet in this session; the design for it is in DESIGN.md §5 (not claimed until the check exists and passes on the unchanged tree)"
 
 def main():
@@ -87,6 +103,8 @@ def main():
         if pid not in CHECKS:
             continue
         cat, engine, technique, text, note, ref = CHECKS[pid]
+        text = text + ADDENDA.get(pid, "")
+        engine = ENGINE_OVERRIDE.get(pid, engine)
         checks.append({
             "property_id": pid,
             "quick_cmd": f"./dst.sh check {pid} --tier quick",
@@ -109,8 +127,8 @@ def main():
             "add_only": True,
         },
         "engines": [
-            {"name": "R router-sim", "path": "/verif/dst/src/rsim", "serves_properties": [p for p in ALL if p in CHECKS and "R" in CHECKS[p][1]], "kind_free_text": "real topic routers polled by a harness executor against scripted mock sinks/streams"},
-            {"name": "N net-sim", "path": "/verif/dst/src/nsim", "serves_properties": [p for p in ALL if p in CHECKS and "N" in CHECKS[p][1]], "kind_free_text": "real client+server+quinn+rustls on a paused tokio clock over an in-memory UDP network with seeded faults"},
+            {"name": "R router-sim", "path": "/verif/dst/src/rsim", "serves_properties": [p for p in ALL if p in CHECKS and "R" in ENGINE_OVERRIDE.get(p, CHECKS[p][1])], "kind_free_text": "real topic routers polled by a harness executor against scripted mock sinks/streams"},
+            {"name": "N net-sim", "path": "/verif/dst/src/nsim", "serves_properties": [p for p in ALL if p in CHECKS and "N" in ENGINE_OVERRIDE.get(p, CHECKS[p][1])], "kind_free_text": "real client+server+quinn+rustls on a paused tokio clock over an in-memory UDP network with seeded faults"},
             {"name": "W wire-sim", "path": "/verif/dst/src/wsim", "serves_properties": [p for p in ALL if p in CHECKS and "W" in CHECKS[p][1]], "kind_free_text": "real MessageCodec + FramedRead/FramedWrite over a scripted byte pipe"},
         ],
         "checks": checks,
